@@ -33,9 +33,10 @@ def _one(args):
     lose_idle = args[7] if len(args) > 7 else 0
     instant = list(args[8]) if len(args) > 8 and args[8] else []
     idle_lines = {int(k): [bytes(x) for x in v] for k, v in (args[9] or {}).items()} if len(args) > 9 and args[9] else None
+    wfail = args[10] if len(args) > 10 else 0
     return serial_rec.run_direct([bytes(s) for s in stmts], [bytes(a) for a in acks],
                                  status={int(k): [bytes(x) for x in v] for k, v in status.items()}, late_hs=late, lose_at=lose,
-                                 slow=slow, mode=mode, lose_idle_after=lose_idle, instant=instant, idle_lines=idle_lines)
+                                 slow=slow, mode=mode, lose_idle_after=lose_idle, instant=instant, idle_lines=idle_lines, fail_write_at=wfail)
 
 
 def run_all(specs, par=12):
@@ -49,19 +50,20 @@ def enc(spec):
             "lose": spec[4] if len(spec) > 4 else 0, "slow": list(spec[5]) if len(spec) > 5 and spec[5] else None,
             "mode": spec[6] if len(spec) > 6 else "serial", "lose_idle": spec[7] if len(spec) > 7 else 0,
             "instant": list(spec[8]) if len(spec) > 8 and spec[8] else [],
-            "idle_lines": {str(k): [list(x) for x in v] for k, v in spec[9].items()} if len(spec) > 9 and spec[9] else {}}
+            "idle_lines": {str(k): [list(x) for x in v] for k, v in spec[9].items()} if len(spec) > 9 and spec[9] else {},
+            "wfail": spec[10] if len(spec) > 10 else 0}
 
 
 def dec(d):
     return ([bytes(s) for s in d["stmts"]], [bytes(a) for a in d["acks"]],
             {int(k): [bytes(x) for x in v] for k, v in d["status"].items()}, d["late"], d.get("lose", 0), d.get("slow"), d.get("mode", "serial"), d.get("lose_idle", 0), d.get("instant", []),
-            {int(k): [bytes(x) for x in v] for k, v in d.get("idle_lines", {}).items()})
+            {int(k): [bytes(x) for x in v] for k, v in d.get("idle_lines", {}).items()}, d.get("wfail", 0))
 
 
 def project(trace, spec):
     """A recorded execution in DirectWriteImpl's vocabulary (None if it is outside the model: loss, slow, stuck, ...)."""
     stmts, acks, status, late = spec[:4]
-    if (len(spec) > 4 and spec[4]) or (len(spec) > 5 and spec[5]) or (len(spec) > 7 and spec[7]) or (len(spec) > 9 and spec[9]):
+    if (len(spec) > 4 and spec[4]) or (len(spec) > 5 and spec[5]) or (len(spec) > 7 and spec[7]) or (len(spec) > 9 and spec[9]) or (len(spec) > 10 and spec[10]):
         return None
     if any(len(v) != 1 for v in status.values()):
         return None
@@ -246,8 +248,10 @@ class P(flow.Plan):
             alarms = {}
             if i % 9 == 4 and k >= 2 and not lose and not slow and not idle and not inst:
                 alarms = {rng.randint(1, k - 1): [rng.choice(ERRS)]}
-            specs.append((stmts, acks, status, rng.random() < 0.15 and not lose and not slow and not idle and not inst and not alarms,
-                          lose if mode == "serial" else 0, slow, mode, idle, inst, alarms))
+            # the serial port refuses a write while reads keep timing out (added after seed C16f): that write() raises
+            wfail = rng.randint(1, k) if i % 13 == 6 and mode == "serial" and not lose and not slow and not idle and not inst and not alarms else 0
+            specs.append((stmts, acks, status, rng.random() < 0.15 and not lose and not slow and not idle and not inst and not alarms and not wfail,
+                          lose if mode == "serial" else 0, slow, mode, idle, inst, alarms, wfail))
         traces = run_all(specs)
         for t in traces:
             t["meta"]["driver"] = "random"
